@@ -18,7 +18,7 @@ RULE = (
     "and each machine must follow its own fork (states, results, exceptions, full callback logs - so options, listeners and model callbacks "
     "survived); clone.model / listeners / recorder / custom attribute are equal but not shared (mutating one side is invisible on the other); "
     "an event on one machine never produces records on another. non-trivial = a clone taken after >=1 event, with a non-default option or a "
-    "listener, followed by events on both sides"
+    "listener, followed by events on at least two of the machines"
 )
 ASSUMPTIONS = ["generated classes are registered as attributes of the harness module so that pickle can find them", "reference interpreter trusted"]
 
@@ -48,7 +48,8 @@ class P(Play):
         for name, ctx in self.ctxs.items():
             if name != tgt and ctx.H.log:
                 raise Fail("shared-state", f"step {self.i}: event sent to {tgt} produced records in the recorder of {name}: {ctx.H.log[:2]}")
-        if len(self.ctxs) > 1 and all(self.sent.get(n, 0) > self.sent_at_clone.get(n, 0) for n in self.ctxs):
+        # at least two of the machines (original / clones) received events after the last clone point
+        if len(self.ctxs) > 1 and sum(1 for n in self.ctxs if self.sent.get(n, 0) > self.sent_at_clone.get(n, 0)) >= 2:
             if self.clone_interesting:
                 self.nontrivial = True
                 self.labels.add("diverged-after-clone")
@@ -143,7 +144,7 @@ def cases(draw, tier):
     names = []
     steps = draw(gen.history(spec, max_steps=10 if tier == "quick" else 16))
     for k, step in enumerate(steps):
-        if (k == 0 and draw(st.integers(0, 4)) == 0) or (k > 0 and draw(st.integers(0, 9)) < 3 and len(names) < 3):
+        if (k == 0 and draw(st.integers(0, 5)) == 0) or (k > 0 and draw(st.integers(0, 9)) < 4 and len(names) < 3):
             nm = f"c{len(names) + 1}"
             hist.append({"op": "clone", "how": draw(st.sampled_from(["deepcopy", "pickle"])), "name": nm, "source": draw(st.sampled_from(["main"] + names)),
                          "protocol": draw(st.sampled_from([2, 4, 5]))})
